@@ -53,7 +53,10 @@ RULE_ADDED = (
               'riables exported (COLUMNS, LINES, TERM, LANG ...). '
               ' '
               "Round 15: attested keys hash equal to the operator's only in its first / last 4."
-              '.31 bytes (Ledger and SGX). ')
+              '.31 bytes (Ledger and SGX). '
+              ' '
+              'Round 16: operator key files in hybrid and mixed notations; an attested hash of '
+              'the keys as spelled in the file. ')
 RULE = RULE + " " + RULE_ADDED.strip()
 ASSUMPTIONS = [
     "stdout of the commands is parsed by label ('UD value:', 'Hash:', ...)",
